@@ -13,7 +13,7 @@
 # limitations under the License.
 
 import time
-from io import TextIOWrapper
+from io import StringIO, TextIOWrapper
 from subprocess import Popen, PIPE
 
 import pysmt.smtlib.commands as smtcmd
@@ -127,9 +127,39 @@ class SmtLibSolver(Solver): # TODO this class is defined twice in pysmt. Here an
         self._debug("Read: %s", res)
         return res
 
+    def _read_sexpr(self):
+        """Reads one complete s-expression from the STDOUT pipe"""
+        res = []
+        depth = 0
+        quote = None # Inside a string literal or a quoted symbol
+        while True:
+            c = self.solver_stdout.read(1)
+            if not c:
+                break
+            if quote is not None:
+                if c == quote:
+                    quote = None
+            elif c in ('"', '|'):
+                quote = c
+            elif c == "(":
+                depth += 1
+            elif c == ")":
+                depth -= 1
+            elif c.isspace() and not res:
+                continue
+            res.append(c)
+            if depth <= 0 and quote is None and (c == ")" or c.isspace()):
+                break
+        return "".join(res)
+
     def _get_value_answer(self):
         """Reads and parses an assignment from the STDOUT pipe"""
-        lst = self.parser.get_assignment_list(self.solver_stdout)
+        # The whole answer is read before parsing it: if it is not a
+        # list of assignments (e.g., it is an error message), no part
+        # of it is left in the pipe to be taken for the answer to the
+        # next command.
+        ans = self._read_sexpr()
+        lst = self.parser.get_assignment_list(StringIO(ans))
         self._debug("Read: %s", lst)
         return lst
 
